@@ -12,17 +12,17 @@ def jobs(tier):
     for cfg in ('haswell', 'westmere'):
         def add(name, params, bound, nproc=1, **kw):
             J.append(Job('C05.%s.%s' % (cfg, name), 'harness/c_str.cpp', '@h_str', params, config=cfg, nproc=nproc, bound=bound, timeout=3000, **kw))
-        nfree = 6 if q else 11
+        nfree = 5 if q else 11
         for n in range(0, nfree + 1):
             add('free%d' % n, [n, n + 1, 0], 'every literal body of %d bytes, all contents' % n, nproc=(1 if n <= 6 else 16))
         # one backslash anywhere across two AVX2 blocks / four SSE blocks
-        for n in ([16, 31, 32, 33, 64, 65] if q else list(range(12, 71))):
+        for n in ([16, 32, 33, 64] if q else list(range(12, 71))):
             add('bs1.n%d' % n, [n, 1, 0], 'every literal body of %d bytes with at most one backslash' % n, nproc=2)
         # two backslashes: surrogate pairs and back-to-back escapes
-        for n in ([12, 14] if q else list(range(12, 25))):
+        for n in ([12] if q else list(range(12, 25))):
             add('bs2.n%d' % n, [n, 2, 0], 'every literal body of %d bytes with at most two backslashes' % n, nproc=4)
         # long plain prefix then an unrestricted tail of 13 bytes (covers \\uD8xx\\uDCxx crossing a block edge)
-        for k in ([20, 52] if q else list(range(14, 60, 2))):
+        for k in (([20] if cfg == 'haswell' else []) if q else list(range(14, 60, 2))):
             add('pre%d.tail13' % k, [k + 13, k + 14, k], '%d plain symbolic bytes then 13 unrestricted bytes' % k, nproc=16)
     return J
 
